@@ -1,25 +1,37 @@
 import sys, time
-sys.setrecursionlimit(10000)
-from pyvc.engine import World
-from pyvc import spec, prove
-from pyvc.contract import verify_scenario
+sys.setrecursionlimit(20000)
+from pyvc import prove
+from pyvc.cli import load_world
+from pyvc.contract import verify_scenario, verify_lemma
 import importlib
-def run(modname, only=None, timeout=10000):
-    w = World(); w.spec_ns.update(spec.NS)
-    m = importlib.import_module("contracts."+modname); m.install(w)
+def run(modname, only=None, timeout=10000, scen=None):
+    w = load_world()
+    import contracts
+    before = None
+    m = importlib.import_module("contracts."+modname)
+    from pyvc.engine import World
+    w2 = World(); m.install(w2)
+    names = set(w2.contracts)
     for name, ct in w.contracts.items():
+        if name not in names: continue
         if only and only not in name: continue
         for sc in ct.scenarios:
+            if scen and scen not in sc.name: continue
             t0=time.time()
             res = verify_scenario(w, ct, sc)
             print(f"== {name} [{sc.name}] paths={len(res)} {time.time()-t0:.2f}s")
             for r in res:
-                print("  path", r.outcome, r.detail, [ (t,c) for t,c in r.trace][:12])
+                print("  path", r.outcome, r.detail, [ (t,c) for t,c in r.trace][-8:])
                 for vc in r.vcs:
                     v = prove.discharge(vc, timeout)
                     extra = ""
                     if v.status=="refuted":
-                        extra = str({k:v for k,v in prove._model_dict(v.model).items() if '!' not in k})[:300]
+                        extra = str({k:v for k,v in prove._model_dict(v.model).items() if '!' not in k})[:400]
                     print(f"     {v.status:8s} {v.backend} {v.secs:.2f}s {vc.name} {extra}")
+    for lem in w.lemmas:
+        if lem.name.lower().startswith(modname.lower()):
+            for r in verify_lemma(w, lem):
+                for vc in r.vcs:
+                    v = prove.discharge(vc, timeout); print(f"  lemma {v.status} {v.secs:.2f}s {vc.name}")
 if __name__=="__main__":
-    run(sys.argv[1], sys.argv[2] if len(sys.argv)>2 else None)
+    run(sys.argv[1], sys.argv[2] if len(sys.argv)>2 else None, scen=sys.argv[3] if len(sys.argv)>3 else None)
